@@ -676,6 +676,56 @@ def cyclic_partitions(res) -> list[tuple[Failure, dict]]:
                 f"other: verify_distributed_partition raised "
                 f"{names or 'nothing'}", f"lead={lead}"),
                 {"cyclic_partition": list(lead)}))
+    # a message a rank sends to ITSELF, received by an earlier part than the
+    # one that sends it (alone, and next to an idle second rank)
+    for nranks in (1, 2):
+        rx = pt.make_distributed_recv(0, 7, (2,), np.float64)
+        a = pt.make_placeholder("rx", (2,), np.float64) + 1
+        b = pt.make_placeholder("a", (2,), np.float64) * 2
+        parts = {
+            0: DistributedGraphPart(
+                pid=0, needed_pids=frozenset(), user_input_names=frozenset(),
+                partition_input_names=frozenset(),
+                output_names=frozenset({"a"}), name_to_recv_node={"rx": rx},
+                name_to_send_nodes={}),
+            1: DistributedGraphPart(
+                pid=1, needed_pids=frozenset({0}),
+                user_input_names=frozenset(),
+                partition_input_names=frozenset({"a"}),
+                output_names=frozenset({"b"}), name_to_recv_node={},
+                name_to_send_nodes={"b": [DistributedSend(
+                    data=b, dest_rank=0, comm_tag=7)]})}
+        partitions = [DistributedGraphPartition(
+            parts=parts, name_to_output={"a": a, "b": b},
+            overall_output_names=["b"])]
+        if nranks == 2:
+            c = pt.make_placeholder("x", (2,), np.float64) + 3
+            partitions.append(DistributedGraphPartition(
+                parts={0: DistributedGraphPart(
+                    pid=0, needed_pids=frozenset(),
+                    user_input_names=frozenset({"x"}),
+                    partition_input_names=frozenset(),
+                    output_names=frozenset({"c"}), name_to_recv_node={},
+                    name_to_send_nodes={})},
+                name_to_output={"c": c}, overall_output_names=["c"]))
+        with warnings.catch_warnings():
+            warnings.simplefilter("ignore")
+            try:
+                sim = distsim.verify_all(partitions)
+            except HarnessError:
+                raise
+            except Exception as e:  # noqa: BLE001
+                raise HarnessError(f"cyclic partition harness: {e}") from e
+        res.evaluations += 1
+        res.count("cyclic_partitions")
+        names = [type(e).__name__ for e in sim.excs if e is not None]
+        if "PartitionInducedCycleError" not in names:
+            fails.append((Failure(
+                "cyclic-partition-verified",
+                f"a rank ({nranks} in all) whose part 0 receives what its "
+                f"part 1 sends to itself: verify_distributed_partition "
+                f"raised {names or 'nothing'}", f"self-message|{nranks}"),
+                {"cyclic_partition": ["self", nranks]}))
     return fails
 
 
